@@ -407,13 +407,16 @@ def shard(ctx: Ctx) -> None:
         labels = [case["kind"]] + ([case["variant"], case["hardware"], f"pairs:{len(case['bells'])}", f"others:{case['others']}", f"expect:{case['expect']}"] + (["prelude:" + case["prelude"][0]] if case.get("prelude") else []) if case["kind"] == "keep" else [case.get("route", "creator"), case["basis"]])
         stt.case(case, nt, labels, sample=case)
     stt.exhaustive_domains[f"keep scenarios up to {max_pairs} pairs x variants x hardware x others x expectation; measure-directly 4 Bell x 6 bases x 2 routes x expectation"] = n_enum
-    if ctx.tier == "quick":
+    if True:
+        # randomly combined scenarios beyond the enumerated grid (longer requests, an earlier request on the same connection)
 
         def body(t):
-            bells, variant, hardware, others, expect = t
+            bells, variant, hardware, others, expect, prelude = t
             if len(bells) + others > (5 if hardware == "generic" else 4):
                 others = 0
             case = {"kind": "keep", "bells": list(bells), "variant": variant, "hardware": hardware, "others": others, "expect": expect or variant == "create_keep"}
+            if prelude is not None and others == 0:
+                case["prelude"] = list(prelude)
             exk = excluded(case, ctx.open_findings)
             if exk:
                 stt.excluded[exk] += 1
@@ -423,12 +426,13 @@ def shard(ctx: Ctx) -> None:
             except Rejected as r:
                 stt.rejected[str(r)] += 1
                 return
-            stt.case(case, any(b != 0 for b in bells), ["keep:hyp", variant, hardware, f"pairs:{len(bells)}"])
+            stt.case(case, any(b != 0 for b in bells), ["keep:hyp", variant, hardware, f"pairs:{len(bells)}"] + (["prelude:" + case["prelude"][0]] if "prelude" in case else []))
 
+        st_prelude = st.none() | st.tuples(st.sampled_from(["recv_rsp", "recv_keep", "create_keep", "new_register"]), st.integers(0, 3), st.booleans())
         ctx.search(
-            st.tuples(st.lists(st.integers(0, 3), min_size=3, max_size=4), st.sampled_from(VARIANTS), st.sampled_from(["generic", "nv"]), st.integers(0, 2), st.booleans()),
+            st.tuples(st.lists(st.integers(0, 3), min_size=1, max_size=4), st.sampled_from(VARIANTS), st.sampled_from(["generic", "nv"]), st.integers(0, 2), st.booleans(), st_prelude),
             body,
-            60,
+            150 if ctx.tier == "quick" else 4000,
             name="c10-hyp",
         )
 
